@@ -66,12 +66,15 @@ def Extern(name, params, ret):
     return {"n": name, "params": [p for p, _ in params], "ptys": [t for _, t in params], "ret": ret}
 
 
-def Program(funcs, structs=(), enums=(), unions=(), globals_=(), shadows=(), externs=()):
+def Program(funcs, structs=(), enums=(), unions=(), globals_=(), shadows=(), externs=(), resources=()):
     """structs: [(name, [(field, type)])]; enums: [(name, [(variant, value)])];
     unions: [(name, [(variant, [(field, type)])])]; globals_: [(name, type, mut, init)];
-    shadows: [(fn, [stmts])]"""
+    shadows: [(fn, [stmts])]; resources: names of the structs declared `resource struct` (affine types,
+    spec/NanoAffine.tla) - such an entry carries "res": True, every other entry is unchanged"""
+    res = set(resources)
     return {
-        "structs": [{"n": n, "fields": [f for f, _ in fs], "ftys": [t for _, t in fs]} for n, fs in structs],
+        "structs": [dict({"n": n, "fields": [f for f, _ in fs], "ftys": [t for _, t in fs]}, **({"res": True} if n in res else {}))
+                    for n, fs in structs],
         "enums": [{"n": n, "variants": [{"n": v, "v": int_to_limbs(x)} for v, x in vs]} for n, vs in enums],
         "unions": [{"n": n, "variants": [{"n": v, "fields": [f for f, _ in fs], "ftys": [t for _, t in fs]}
                                          for v, fs in vs]} for n, vs in unions],
@@ -181,7 +184,8 @@ def pretty(p, style="prefix", default_shadows=True):
     for ex in p.get("externs", []):
         out.append("extern fn %s(%s) -> %s\n" % (ex["n"], ", ".join("%s: %s" % (a, t) for a, t in zip(ex["params"], ex["ptys"])), ex["ret"]))
     for st in p["structs"]:
-        out.append("struct %s {\n%s\n}\n" % (st["n"], ",\n".join("    %s: %s" % (f, t) for f, t in zip(st["fields"], st["ftys"]))))
+        out.append("%sstruct %s {\n%s\n}\n" % ("resource " if st.get("res") else "", st["n"],
+                                                 ",\n".join("    %s: %s" % (f, t) for f, t in zip(st["fields"], st["ftys"]))))
     for en in p["enums"]:
         out.append("enum %s {\n%s\n}\n" % (en["n"], ",\n".join("    %s = %d" % (v["n"], limbs_to_int(v["v"])) for v in en["variants"])))
     for un in p["unions"]:
@@ -228,6 +232,8 @@ def parse_type(s, p):
     if s == "void": return T("void")
     if s.startswith("array<") and s.endswith(">"):
         return T("arr", "", [parse_type(s[6:-1], p)])
+    if s.startswith("HashMap<") and s.endswith(">"):
+        return T("map", "", [parse_type(x, p) for x in _split_top(s[8:-1])])
     if s.startswith("fn("):
         depth, i = 0, 2
         for i in range(2, len(s)):
